@@ -55,6 +55,8 @@ type Prog struct {
 	// caches
 	e1    *e1Result
 	e3    *e3Result
+	e3b   *[]E3bIssue
+	e3bSerialised int
 	e4    *e4Result
 	e5    *e5Result
 	atoms map[*ssa.Function]*guardInfo
